@@ -172,7 +172,9 @@ def cmd_check(args, vx):
         # sample obligations: woven clauses
         for i, l in enumerate(res.gen.lines):
             inf = res.gen.info[i]
-            if inf.kind == "woven" and prop in inf.tags and len(samples) < 12 and re.search(r"[A-Za-z]", l) and not re.match(r"\s*(requires|ensures|invariant|decreases)\s*$", l):
+            if inf.kind == "woven" and prop in inf.tags and (inf.directive or "").split()[0:1] and (inf.directive or "").split()[0] in ("spec", "loop", "closure") \
+                    and ("//:" in l or len(samples) < 4) and len(samples) < 14 and re.search(r"[A-Za-z]", l) and not l.strip().startswith("#[") \
+                    and not re.match(r"\s*(requires|ensures|invariant|decreases)\s*$", l):
                 samples.append({"unit": u, "item": res.gen.items[inf.item]["name"], "clause": l.strip()[:200], "contract": f"{inf.tmpl_file}:{inf.tmpl_line}"})
     if obligations == 0:
         tool_problems.append("vacuity: zero obligations")
